@@ -830,7 +830,14 @@ func (n *IncludeNode) Render(w io.Writer, ctx *RenderContext) error {
 	}
 
 	// Need a new context for 'only' mode, sandboxed mode, or with variables
-	includeCtx := ctx
+	var includeCtx *RenderContext
+	if !n.only && !n.sandboxed {
+		// 'with' variables only: they belong to the included template, so they are set on a
+		// child context and never on the includer's own
+		includeCtx = ctx.Clone()
+		includeCtx.lastLoadedTemplate = template
+		defer includeCtx.Release()
+	}
 	if n.only || n.sandboxed {
 		var contextVars map[string]interface{}
 
